@@ -50,6 +50,13 @@ TRUSTED = ["the JSON text encoder (json / orjson) and json.loads: the model stop
            "Python repr() of str for code points >= 256 (assumed printable) and of floats >= 1e16 is outside the model; generators stay below"]
 ASSUMPTIONS = ["verbose_level in {0,1,2}", "dict/set inputs satisfy Python's representation invariant; values are tree-shaped except that one set / frozenset object may sit at several places; no bytes dict keys (finding F5)"]
 
+# second tie (core.source_tie_step): TextResult's conversion and pretty_print_diff regenerated from the current source
+SOURCE_TIES = [{"name": "textresult", "translator": "textresult", "gen_module": "ViewsGen", "equiv": ["ViewsGenEquiv"],
+                "needs": ["Views.ViewsSrc", "Views.ViewsSrcProofs"],
+                "sources": ["deepdiff/model.py", "deepdiff/serialization.py", "deepdiff/helper.py"],
+                "fragment": "model.py: FORCE_DEFAULT, REPORT_KEYS, CUSTOM_FIELD, class TextResult (__init__ container table, __set_or_dict, "
+                            "_from_tree_results and every _from_tree_* method); serialization.py: _get_pretty_form_text, pretty_print_diff"}]
+
 MARK = "\x01<S>\x02"
 HDR = D.MODEL_HDR + "\nFrom DD Require Import Views.ViewsModel Views.ViewsShow."
 STRS = V.STR_POOL + ["a\nb", "a\nc\n", "it's", 'q"q', "b'\"c", "back\\slash", "tab\there", "\x7f", "caf\xe9", "\x85\xa0\xad", "{x}", "[0]", "root"]
@@ -1496,6 +1503,133 @@ def one_pair(ctx, t1, t2, cases, corr=True, iocases=None, repcases=None):
         ctx.fail(dict(t1=repr(t1), t2=repr(t2), clause="inputs modified"), "a presentation modified an input")
 
 
+# ---------------------------------------------------------------------------
+# source tie "textresult": differencing of the generated conversion against the hand model
+# ---------------------------------------------------------------------------
+TIE_SYN = """
+Definition syn_k (s : String.string) : pkey := PKey (AStr (s2p s)).
+Definition syn_es : list entry := [
+  mkEntry KType [syn_k "a"] [syn_k "b"] (Some (VAtom (AInt 1))) (Some (VAtom (AStr (s2p "x")))) None;
+  mkEntry KType [PIdx 5] [PIdx 5] (Some (VList [])) (Some (VTuple [])) None;
+  mkEntry KValue [PIdx 0] [PIdx 1] (Some (VAtom (AStr (s2p "x")))) (Some (VAtom (AStr (s2p "y")))) (Some (s2p "dd"));
+  mkEntry KValue [PIdx 2] [PIdx 2] (Some (VAtom (AInt 1))) (Some (VAtom (AInt 2))) None;
+  mkEntry KDictAdd [syn_k "n"] [syn_k "n"] None (Some (VAtom (AInt 7))) None;
+  mkEntry KDictRem [syn_k "o"] [syn_k "o"] (Some (VAtom (AStr (s2p "gone")))) None None;
+  mkEntry KIterAdd [PIdx 3] [PIdx 3] None (Some (VAtom (AStr (s2p "new")))) None;
+  mkEntry KIterRem [PIdx 4] [PIdx 4] (Some (VAtom (ABytes (s2p "old")))) None None;
+  mkEntry KIterMoved [PIdx 0] [PIdx 3] (Some (VAtom (AInt 9))) (Some (VAtom (AInt 9))) None;
+  mkEntry KSetAdd [syn_k "s"] [syn_k "s"] None (Some (VAtom (AStr (s2p "m")))) None;
+  mkEntry KSetAdd [syn_k "s"] [syn_k "s"] None (Some (VAtom (AInt 3))) None;
+  mkEntry KSetAdd [] [] None (Some (VAtom (ABytes (s2p "b")))) None;
+  mkEntry KSetRem [syn_k "s"] [syn_k "s"] (Some (VAtom (AStr (s2p "it's")))) None None;
+  mkEntry KSetRem [PIdx 1; syn_k "t"] [PIdx 1; syn_k "t"] (Some (VAtom ANone)) None None;
+  mkEntry KRepetition [PIdx 0] [PIdx 0] (Some (VAtom (AInt 4))) (Some (VAtom (AInt 4))) None;
+  mkEntry KValue [] [] (Some (VAtom (AInt 1))) (Some (VAtom (AInt 2))) None ].
+Definition syn_rs : list repinfo3 := [([PIdx 0], [0; 1], [1])].
+"""
+# pairs whose runs (in the three MODES of one_pair) show report types the ordered stream alone does not reach
+TIE_PROBES = [([4, 4, 1], [1, 4, 2]), ([1, 1, 2, 3], [1, 2, 2, 4]), ({"a": {1, 2}, "b": "x\ny\n"}, {"a": {1, 3}, "b": "x\nz\n"}),
+              ({"a": 1, "o": "gone"}, {"a": "x", "n": 7}), ([1, 2, "old"], [1, 3, "old", "new"]), (1, 2), ({1, "it's"}, {1, b"b"})]
+
+
+def tie_diff_file(ctx, pairs):
+    """Coq text that evaluates, for every pair and verbose level, the generated conversion (DDGen.ViewsGen, regenerated from
+    the current source) and the hand model on the tree of the ordered-mode model run, and prints which differ"""
+    out = ["From Coq Require Import List String ZArith NArith Bool.", "Import ListNotations.", HDR3,
+           "From DD Require Import Views.ViewsSrc.", "From DDGen Require Import ViewsGen.", "Local Open Scope string_scope.", TIE_SYN,
+           "Ltac cmp tag a b := let x := eval vm_compute in a in let y := eval vm_compute in b in",
+           "  first [constr_eq x y | idtac \"TIEDIFF\" tag].",
+           "Ltac cmp_all i es rs :=",
+           "  cmp (i, 0%nat, \"text\") (s_out (g___init__ (mkGTree es rs) 0)) (text_result_raw 0 (mkGTree es rs));",
+           "  cmp (i, 1%nat, \"text\") (s_out (g___init__ (mkGTree es rs) 1)) (text_result_raw 1 (mkGTree es rs));",
+           "  cmp (i, 2%nat, \"text\") (s_out (g___init__ (mkGTree es rs) 2)) (text_result_raw 2 (mkGTree es rs));",
+           "  cmp (i, 3%nat, \"text\") (s_out (g___init__ (mkGTree es rs) 3)) (text_result_raw 3 (mkGTree es rs));",
+           "  cmp (i, 1%nat, \"pretty\") (map (fun e => g_pretty_print_diff 1 (e, None)) es) (map OStr (pretty 1 es));",
+           "  cmp (i, 2%nat, \"pretty\") (map (fun e => g_pretty_print_diff 2 (e, None)) es) (map OStr (pretty 2 es)).",
+           "Goal True. cmp_all 0%nat syn_es syn_rs. exact I. Qed."]
+    for i, (a, b, thr) in enumerate(pairs, 1):
+        run = "(run_diff hatom_simple (tbl_udiff %s) (tbl_ops %s) no_paths no_paths %s %s %s)" % (
+            D.coq_udiff_table(D.udiff_table(a, b)), D.coq_ops_table(D.opcode_table(a, b)), D.coq_cfg(False, thr, True), V.to_coq(a), V.to_coq(b))
+        out.append("Definition es_%d : list entry := Eval vm_compute in fst %s." % (i, run))
+        out.append("Goal True. cmp_all %d%%nat es_%d (@nil repinfo3). exact I. Qed." % (i, i))
+    return "\n".join(out) + "\n"
+
+
+def on_source_tie_break(ctx, name, rec):
+    """core.source_tie_step calls this when the tie `textresult` is not intact.  When the regenerated model compiled, it is
+    evaluated inside Coq against the hand model on a synthetic entry list with every report type and on the trees of generated
+    pairs x verbose_level 0..3 (conversion) / 1, 2 (pretty statements); the pairs on which they differ - and, whenever anything
+    differs, the probe pairs TIE_PROBES - go through the property's ordinary oracle and correspondence (one_pair + coq_cases), so
+    that they are judged like any generated case.  A broken tie alone never fails the check."""
+    import os
+    import re
+    from concurrent.futures import ThreadPoolExecutor
+    if name != "textresult":
+        return {"searched": "unknown tie"}
+    gen_dir = os.path.join(ctx.scratch, "srctie")
+    if rec.get("status") in ("translator-rejected", "generated-model-does-not-compile") or not os.path.exists(os.path.join(gen_dir, "ViewsGen.vo")):
+        return {"searched": "nothing to difference (%s): the run uses thorough-size streams instead" % rec.get("status")}
+    n = 240 if ctx.thorough else 120
+    pool = [(a, b) for a, b in FIXED_PAIRS + TIE_PROBES + gen_pairs(ctx, n)]
+    pairs = []
+    for a, b in pool:
+        try:
+            if D.in_model_guard(a, b) and repr_in_model(a, b) and not has_sharing(a, b):
+                pairs.append((a, b, ctx.rng.choice([0.33, 0.33, 0])))
+        except Exception:
+            pass
+    ctx.ensure_built(HDR3 + "\nFrom DD Require Import Views.ViewsSrc.")
+    shard = 40
+    shards = [pairs[i:i + shard] for i in range(0, len(pairs), shard)]
+
+    def one(k):
+        fn = os.path.join(ctx.scratch, "tiediff_%d.v" % k)
+        with open(fn, "w") as f:
+            f.write(tie_diff_file(ctx, shards[k]))
+        return core.sh(["coqc", "-Q", core.THEORIES, "DD", "-Q", gen_dir, "DDGen", fn], timeout=900, cwd=ctx.scratch)
+    with ThreadPoolExecutor(max_workers=core.NCPU) as ex:
+        results = list(ex.map(one, range(len(shards))))
+    diffs, errors, syn = [], [], []
+    for k, (rc, out) in enumerate(results):
+        if rc != 0:
+            errors.append(out[-600:])
+            continue
+        for m in re.finditer(r'TIEDIFF \((\d+), (\d+), "(\w+)"\)', out):
+            i, v, what = int(m.group(1)), int(m.group(2)), m.group(3)
+            if i == 0:
+                if k == 0:
+                    syn.append({"verbose": v, "what": what})
+            else:
+                a, b, thr = shards[k][i - 1]
+                diffs.append({"t1": repr(a), "t2": repr(b), "thr": thr, "verbose": v, "what": what, "_pair": (a, b)})
+    res = {"searched": "%d generated pairs x verbose 0..3 (conversion) / 1..2 (pretty) + one synthetic entry list with every report type" % len(pairs),
+           "differing_cases": len(diffs), "synthetic_differs_at": syn, "coq_errors": errors[:2]}
+    if not diffs and not syn:
+        res["outcome"] = "generated and hand model agree on everything evaluated"
+        return res
+    diffs.sort(key=lambda d: len(d["t1"]) + len(d["t2"]))
+    res["first"] = [{k: v for k, v in d.items() if k != "_pair"} for d in diffs[:3]]
+    # judged like any generated case: the direct oracle and the correspondence on the differing inputs and on the probes
+    todo, seen = [], set()
+    for d in diffs[:6]:
+        key = (d["t1"], d["t2"])
+        if key not in seen:
+            seen.add(key)
+            todo.append(d["_pair"])
+    todo += [p for p in TIE_PROBES if (repr(p[0]), repr(p[1])) not in seen]
+    cases, iocases, repcases = [], [], []
+    f0, b0 = len(ctx.failures), len(ctx.breaks)
+    for a, b in todo:
+        one_pair(ctx, a, b, cases, iocases=iocases, repcases=repcases)
+    ctx.coq_cases("c10tie", HDR3, cases, shard=100, label="tie_replay_ordered")
+    ctx.coq_cases("c10tieio", IO_HDR, iocases, shard=100, label="tie_replay_ignore_order")
+    ctx.coq_cases("c10tierep", IO_HDR, repcases, shard=100, label="tie_replay_ignore_order_repetition")
+    res["replayed_pairs"] = len(todo)
+    res["oracle_failures_on_replay"] = len(ctx.failures) - f0
+    res["breaks_on_replay"] = len(ctx.breaks) - b0
+    return res
+
+
 def replay_witnesses(ctx):
     """the Coq witnesses of the open findings must still fail on the implementation"""
     from deepdiff import DeepDiff
@@ -1538,7 +1672,9 @@ def replay_witnesses(ctx):
 
 def run(ctx):
     import os
-    npairs = int(os.environ.get("C10_DEV_PAIRS", "0")) or (3600 if ctx.thorough else 400)     # C10_DEV_PAIRS: development only
+    # a source tie that is not intact escalates the streams that exercise TextResult / pretty() to their thorough size
+    big = ctx.thorough or ctx.tie_broken("textresult")
+    npairs = int(os.environ.get("C10_DEV_PAIRS", "0")) or (3600 if big else 400)     # C10_DEV_PAIRS: development only
     pairs = FIXED_PAIRS + shared_fixed_pairs() + gen_pairs(ctx, npairs)
     cases, iocases, repcases = [], [], []
     import sys
